@@ -94,12 +94,15 @@ META = {
     ),
     "trusted_base": [
         "CPython ast",
-        "the installed PyYAML sources yaml/scanner.py, yaml/reader.py as oracle (version recorded in the evidence notes)",
+        "the installed PyYAML sources yaml/scanner.py, yaml/reader.py as oracle (version recorded in the evidence notes): the oracle of the "
+        "property is PyYAML's pure-Python scanner, not libyaml / the YAML 1.2 specification",
         "tabled deliberate deviations from PyYAML (DEVIATIONS, one reason each); PyYAML's flow-context branches are read with flow_level == 0 (an option block is block context)",
         "two tabled loop proofs (C07.R2 ASSUMED)",
         "int() rejects a string containing NUL; a buffer slice cut short by the end of input contains the sentinel",
     ],
     "assumptions": [
+        "agreement is with PyYAML's Python scanner: where that scanner differs from libyaml / YAML 1.2 - notably TAB handling (`a: b<TAB>c`, "
+        "`a:<TAB>b`: a TAB ends a plain scalar and cannot start a token) - the port is expected to follow PyYAML, and no rule compares it with another YAML implementation",
         "StreamBuffer is only driven through peek/prefix/forward/get_position and methods that read the buffer without moving the cursor",
         "an embedded NUL in the text is treated as end of input (no claim about characters after it)",
         "output chunk lists are only joined/extended, so emitting '' or [] is a no-op",
